@@ -160,6 +160,32 @@ def neverHeldBack (evs : List Ev) (k : Kind) (id : Nat) (got : List (Nat × Nat 
       (on, vid || isV, here, ok')) (false, false, false, true)
   r.2.2.2
 
+/-- C02 "each consumer's first video frame is a key frame": a consumer that joined while the current input had already
+    published a video sequence header receives, as its first video frame OF THAT INPUT (sequence headers aside), a key
+    frame. (When that input ends the wait ends with it; what a later input sends is not held back, see C16.) -/
+def firstVideoIsKey (evs : List Ev) (pub : List (Nat × Nat × Bytes)) (inc : List Nat) (k : Kind) (id : Nat)
+    (got : List (Nat × Nat × Bytes)) : Bool :=
+  -- (publisher on, video header of this incarnation seen, incarnation number, result at the join)
+  let r := evs.foldl (fun (acc : Bool × Bool × Nat × Option (Bool × Nat)) e =>
+    let (on, vid, i, res) := acc
+    if res.isSome then acc else
+    match e with
+    | .addPub => if on then acc else (true, vid, i + 1, res)
+    | .delPub => (false, false, i, res)
+    | .msg m => if on && !m.payload.isEmpty && Classify.isVideoKeySeqHeader m.typ m.payload then (on, true, i, res) else acc
+    | .join k' id' => if k' == k && id' == id then (on, vid, i, some (on && vid, i)) else acc
+    | _ => acc) (false, false, 0, none)
+  match r.2.2.2 with
+  | some (true, ji) =>
+    match indexSeq pub got with
+    | none => true
+    | some idx =>
+      match idx.find? (fun j => inc.getD j 0 == ji && (pub.getD j (0, 0, [])).1 == 9 &&
+          !Classify.isVideoKeySeqHeader 9 (pub.getD j (0, 0, [])).2.2) with
+      | some j => Classify.isVideoKeyNalu 9 (pub.getD j (0, 0, [])).2.2
+      | none => true
+  | _ => true
+
 /-- incarnation number of every published message (same filter as `published`) -/
 def publishedInc (evs : List Ev) : List Nat :=
   (evs.foldl (fun (acc : Bool × Nat × List Nat) e =>
@@ -243,6 +269,8 @@ def oracle (cfg : Cfg) (evs : List Ev) (impl : String) : String :=
         let cached := if kk == .rtmp then cfg.rtmpCache else cfg.flvCache
         if kk != .record && cached && !seqHdrInForce pub (publishedInc evs) got then
           "bad:frame-not-preceded-by-the-sequence-header-in-force:" ++ k else
+        if kk != .record && !firstVideoIsKey evs pub (publishedInc evs) kk idn got then
+          "bad:first-video-frame-is-not-a-key-frame:" ++ k else
         if kk != .record && !noStale evs pub (publishedInc evs) kk idn got then
           "bad:received-data-of-an-earlier-publisher:" ++ k else
         let v := contiguousRun (if k.startsWith "r" then cfg.rtmpCap else if k.startsWith "R" then 0 else cfg.flvCap) pub got; if v.startsWith "bad" then v ++ ":" ++ k else v
